@@ -7,7 +7,9 @@ through Connection.read() as bytes as well.
 Part 1 (port view): explicit-state BFS (mc.engine.bfs, replay based) over port-status histories
 {add, modify} x 4 port numbers x DESCRIPTIONS + delete x 4 port numbers + "read the whole view" (reads
 may populate caches, so they are operations), delivered after the handshake, deferred during it, or in
-the same read() as the barrier reply that completes it.  Canonical state = every attribute of the real
+the same read() as the barrier reply that completes it; in a further search LATER features replies
+(same / fewer / more / other ports) are operations too - the view after one is exactly its port list.
+Canonical state = every attribute of the real
 PortCollection objects (sets, masks, any index or cache, aliasing between them) and the reference dict.
 The search runs until the frontier is EMPTY (closure), so the verdict covers histories of any
 length.  In every state the whole mapping API of connection.ports and connection.original_ports
@@ -63,8 +65,16 @@ def port_ops (ndesc, mode="up"):
     o.append(("del", n))
   # reading the whole view is an operation of its own: an implementation may keep caches that reads populate, so
   # "notification, read, notification" and "notification, notification" can be different histories
-  if mode == "up": o.append(("read",))
+  if mode in ("up", "refeat"): o.append(("read",))
+  # a switch answers every features request, not only the one of the handshake: a later features reply replaces
+  # the reported port list and discards the deltas collected so far
+  if mode == "refeat": o.extend(("feat", f) for f in sorted(FEATURE_SETS))
   return o
+
+
+# later features replies: port number -> description index
+FEATURE_SETS = {"same": {1: 0, 2: 0, 3: 0}, "minus3": {1: 0, 2: 0}, "plus4": {1: 0, 2: 0, 3: 0, 4: 0},
+                "other": {2: 1, 4: 0}}
 
 
 def _canon (x, memo, depth=0):
@@ -134,7 +144,7 @@ class PortWorld (object):
     self.barrier_xid = bx[0]
     self.up = False
     self.pending = []
-    if mode == "up": self.finish()
+    if mode in ("up", "refeat"): self.finish()
 
   def finish (self):
     if self.up: return
@@ -150,6 +160,17 @@ class PortWorld (object):
   def apply (self, op):
     if op[0] == "read":
       self.finish(); self.check(); return
+    if op[0] == "feat":
+      self.finish()
+      self.xid += 1
+      self.orig = dict((n, desc_fields(n, v)) for n, v in FEATURE_SETS[op[1]].items())
+      self.ref = dict(self.orig)
+      self.n_msgs += 1
+      try:
+        self.cs.feed(self.i, S.features_reply(self.xid, DPID, [desc_wire(self.orig[n]) for n in sorted(self.orig)]))
+      except Exception as e:
+        self.bad.append(("%s:ports:read-raises:%s" % (PID, _site(e)), "Connection.read raised %r on a features reply" % (e,)))
+      return
     self.xid += 1
     n = op[1]
     if op[0] == "del":
@@ -172,7 +193,7 @@ class PortWorld (object):
     """Whole mutable state: every attribute of both real collections (caches included) + the reference."""
     memo = {}
     c = self.con
-    return (self.mode, _canon(c.ports, memo), _canon(c.original_ports, memo), sorted(self.ref.items()))
+    return (self.mode, _canon(c.ports, memo), _canon(c.original_ports, memo), sorted(self.ref.items()), sorted(self.orig.items()))
 
   def content_key (self):
     c = self.con
@@ -322,7 +343,8 @@ class _Collector (Report):
 
 def port_plan (cfg):
   """(delivery mode, number of descriptions per port number)"""
-  return [("up", cfg.pick(3, N_DESC)), ("early", cfg.pick(2, N_DESC)), ("same-read", cfg.pick(2, N_DESC))]
+  return [("up", cfg.pick(3, N_DESC)), ("early", cfg.pick(2, N_DESC)), ("same-read", cfg.pick(2, N_DESC)),
+          ("refeat", cfg.pick(1, 2))]
 
 
 def run_ports (cfg, rep):
@@ -338,7 +360,7 @@ def run_ports (cfg, rep):
       col.violation(k, what, dict(part="ports", mode=mode, history=[]))
     # a correct collection has at most (descriptions + deleted + untouched)^4 states; a defect that keeps
     # several versions of a port explodes the space - stop at 4x that bound and report the cap
-    n = bfs(exp, depth, col, workers=cfg.workers, seed=cfg.seed, max_states=4 * (ndesc + 2) ** len(NUMS))
+    n = bfs(exp, depth, col, workers=cfg.workers, seed=cfg.seed, max_states=4 * (ndesc + 2) ** len(NUMS) * (len(FEATURE_SETS) if mode == "refeat" else 1))
     closed = col.extra.pop("frontier_at_bound", None) == 0 and not col.caps
     d = col.extra.pop("bfs_depth_completed", None)
     closure[mode] = dict(states=n, closed=closed, levels=d, descriptions=ndesc)
@@ -356,7 +378,8 @@ def replay_ports (data):
   lines = ["mode=%s features reply reports %s" % (mode, _fmt_ref(w.orig))]
   for op in data["history"]:
     op = tuple(op); w.apply(op)
-    lines.append(("read the whole view%.0s" if op[0] == "read" else "port-status %r -> reference %s") % (op, _fmt_ref(w.ref)))
+    lines.append(("read the whole view%.0s" if op[0] == "read" else "features reply %r -> reference %s" if op[0] == "feat"
+                  else "port-status %r -> reference %s") % (op, _fmt_ref(w.ref)))
   w.finish()
   k0 = w.content_key()
   soft, obs = w.check()
@@ -753,7 +776,9 @@ def run (cfg):
     "of_01.Connection after a byte-level handshake reporting ports {1,2,3}: {add, modify} x port {1,2,3,4} x the first k of the "
     "descriptions {original, renamed, new hw address, link-down} and delete x port {1,2,3,4}, delivered after the handshake (k=%d) "
     "with 'read the whole view' as an operation of its own (reads may populate caches), and, separately, between features reply and "
-    "barrier reply (deferred by POX, k=%d) and in the SAME read() as the barrier reply that completes the handshake (k=%d); canonical "
+    "barrier reply (deferred by POX, k=%d) and in the SAME read() as the barrier reply that completes the handshake (k=%d) "
+    "and, with k=%d, together with later features replies {same ports, port 3 gone, port 4 new, ports {2 renamed, 4}} as operations "
+    "(reference: the view after a features reply is exactly its port list); canonical "
     "state = every attribute of the real connection.ports and original_ports objects (sets, masks, any index/cache, aliasing) + "
     "reference dict; in every state len/keys/iter/iterkeys/values/itervalues/items/iteritems and "
     "[] / in / has_key / get by 7 numbers, 10 names and 9 hardware addresses (stale ones included) on ports and original_ports "
@@ -761,7 +786,7 @@ def run (cfg):
     "into 1..6 parts (MORE on all but the last), delivered part by part, in one read, and with the first j parts in the same read as the handshake-completing barrier reply; one echo/port-status/barrier message at "
     "every position and one in every gap; a second reply B (same/other type, same/other xid, 1-2 parts, DESC, AGGREGATE) before "
     "and after; B complete after part i of A for every i (A1 B A2) and after an A that never finishes; distinct = "
-    "(family, stats type, per-delivery event trace)" % (plan["up"], plan["early"], plan["same-read"], nmax))
+    "(family, stats type, per-delivery event trace)" % (plan["up"], plan["early"], plan["same-read"], plan["refeat"], nmax))
   rep.bound = dict(port_numbers=list(NUMS), descriptions=plan, port_history_length="unbounded (closure)",
                    stats_entries_max=nmax, stats_parts_max=MAX_PARTS)
   rep.assumptions = [
